@@ -18,6 +18,7 @@ import (
 	"errors"
 	"fmt"
 	"math"
+	"os"
 	"sort"
 	"strconv"
 	"strings"
@@ -341,18 +342,67 @@ func (s *c26Inst) close() {
 func (s *c26Inst) collect() {
 	t := time.NewTimer(120 * time.Second) // failure detector for the harness only, never part of a verdict on timing
 	defer t.Stop()
+	n0 := [2]int{len(s.q[0]), len(s.q[1])}
 	for {
 		select {
 		case r := <-s.results:
 			s.q[r.cacheID] = append(s.q[r.cacheID], r)
 		case p := <-s.parks:
 			s.park[p.idx] = p
+			s.canonDeletes(p.idx, n0[p.idx])
 			return
 		case m := <-s.panics:
 			panic("cache goroutine panicked: " + m)
 		case <-t.C:
 			panic("cache goroutine spins: neither called List/Watch, read the watch channel nor sent a result")
 		}
+	}
+}
+
+// canonDeletes removes the one source of runtime nondeterminism from the results just collected: finishResync and
+// sendDeletionsForAllResources range over Go maps, so (a) the deletions inside one multi-delete update and (b) a run
+// of consecutive single-delete results come in arbitrary order. They concern distinct keys and commute for every
+// consumer; put them in key order (one of the orders the real code can produce) so that replays are deterministic.
+func (s *c26Inst) canonDeletes(i, from int) {
+	q := s.q[i]
+	isDel := func(r resultWithID) (string, bool) {
+		us, ok := r.value.([]api.Update)
+		if !ok || len(us) != 1 || us[0].Value != nil {
+			return "", false
+		}
+		return us[0].Key.String(), true
+	}
+	for j := from; j < len(q); j++ {
+		if us, ok := q[j].value.([]api.Update); ok && len(us) > 1 {
+			all := true
+			for _, u := range us {
+				all = all && u.Value == nil
+			}
+			if all {
+				sort.SliceStable(us, func(a, b int) bool { return us[a].Key.String() < us[b].Key.String() })
+			}
+		}
+	}
+	for j := from; j < len(q); {
+		k := j
+		for k < len(q) {
+			if _, ok := isDel(q[k]); !ok {
+				break
+			}
+			k++
+		}
+		if k-j > 1 {
+			run := q[j:k]
+			sort.SliceStable(run, func(a, b int) bool {
+				ka, _ := isDel(run[a])
+				kb, _ := isDel(run[b])
+				return ka < kb
+			})
+		}
+		if k == j {
+			k++
+		}
+		j = k
 	}
 }
 
@@ -830,7 +880,6 @@ func c26AllSpecs() map[string][]c26Params {
 		},
 		"thorough": {
 			{Name: "wsync-eager-burst-dev3-mut1", Eager: true, Devs: 3, Muts: 1, Depth: 14},
-			{Name: "wsync-eager-burst-dev2-mut2", Eager: true, Devs: 2, Muts: 2, Depth: 14, BadValue: true},
 			{Name: "wsync-eager-burst-dev3-mut2", Eager: true, Devs: 3, Muts: 2, Depth: 16, BadValue: true},
 			{Name: "wsync-eager-each-dev2-mut2", Eager: true, FlushEach: true, Devs: 2, Muts: 2, Depth: 14, BadValue: true},
 			{Name: "wsync-full-dev2-mut1", Devs: 2, Muts: 1, Depth: 16},
@@ -864,6 +913,7 @@ func TestVerif_C26(t *testing.T) {
 		c.Assume("retry intervals are 0 and the watchRetryTimeout comparison is forced per answer (timed out / not yet); real pacing is not explored")
 		c.Assume("MaxErrorsPerRevision is scaled from 5 to 2 by a build-time rewrite so that the give-up-and-relist branch is reachable within the deviation bound")
 		c.Assume("watcherSyncer.run's consolidation loop is replaced by the explorer choosing consumption order and flush points (processResult/sendUpdates are the real ones)")
+		c.Assume("deletions that the cache emits while ranging over a Go map (resync sweep, connection-failure deletes) are put into key order; they concern distinct keys and commute for the consumer")
 		c.Assume("a List answered NotFound (backing API not installed) counts as a completed list; the fake datastore delivers watch events with revision > the requested one, deletions carry the deletion's revision")
 		if rf := c.ReplayFile(); rf != "" {
 			var d struct {
@@ -898,6 +948,10 @@ func TestVerif_C26(t *testing.T) {
 			`{"Op":"mut","I":0,"K":"a"}`, `{"Op":"ans","I":0,"A":"ok"}`},
 			"expect": "IPPool(a) vanished while the watch was broken: the re-list sweeps it (delete emitted), then success answers settle with sink == datastore"})
 		for _, p := range c26Specs(c) {
+			if only := os.Getenv("VERIF_C26_ONLY"); only != "" && only != p.Name { // debugging aid
+				c.NotExhaustive("VERIF_C26_ONLY set")
+				continue
+			}
 			if c.Expired() {
 				c.Capped("deadline before " + p.Name)
 				break
